@@ -597,6 +597,30 @@ def rule_bounded_closing(ctx):
         gg, mm, rr = an.get(caller)
         node = [n for n in gg.stmt_nodes() if any(c is call for c in node_calls(n))][0]
 
+        from .common import local_canon, canon_text
+
+        def edge_ok_for(fn_):
+            cn_ = local_canon(fn_)
+
+            def edge_ok(a, b, lab):
+                # a timeout configured to 0 switches ITS timer off on purpose: the F edge of `self.<x>Timeout > 0` is "bound disabled by
+                # configuration", not an unbounded path -- provided the T side arms a timer with that very timeout as its delay
+                if lab and lab[0] == "F":
+                    import copy as _cp
+                    from .common import _Subst
+                    test = _Subst(cn_).visit(ast.Expression(body=_cp.deepcopy(lab[1]))).body
+                    at = norm.atoms(test, True)
+                    if len(at) == 1 and at[0][0] == "lt" and at[0][1] == ("c", 0) and at[0][2][0] == "e" and \
+                            at[0][2][1].startswith("self.") and at[0][2][1].endswith("Timeout") and at[0][3]:
+                        tested = at[0][2][1]
+                        for m_, l2 in a.succ:
+                            if l2 and l2[0] == "T" and m_.kind == "stmt" and isinstance(m_.ast, ast.Assign) and isinstance(m_.ast.value, ast.Call) \
+                                    and (call_name(m_.ast.value) or "").endswith("call_later") and m_.ast.value.args \
+                                    and canon_text(fn_, m_.ast.value.args[0], cn_) == tested:
+                                return False
+                return True
+            return edge_ok
+
         def bounded(n, depth=0):
             if any(self_call(c, "dropConnection") for c in node_calls(n)):
                 return True
@@ -610,19 +634,10 @@ def rule_bounded_closing(ctx):
                         h = ctx.program.lookup_method(wsp, c.func.attr)
                         if h is not None and h is not caller:
                             gh, _mh, _rh = an.get(h)
-                            if gh.always_followed_by(gh.entry, lambda x: bounded(x, depth + 1), edge_ok=edge_ok):
+                            if gh.always_followed_by(gh.entry, lambda x: bounded(x, depth + 1), edge_ok=edge_ok_for(h)):
                                 return True
             return False
-
-        def edge_ok(a, b, lab):
-            # a timeout configured to 0 switches the timer off on purpose: the F edge of `self.<x>Timeout > 0`
-            # is "bound disabled by configuration", not an unbounded path
-            if lab and lab[0] == "F":
-                at = norm.atoms(lab[1], True)
-                if len(at) == 1 and at[0][0] == "lt" and at[0][1] == ("c", 0) and at[0][2][0] == "e" and \
-                        at[0][2][1].startswith("self.") and at[0][2][1].endswith("Timeout") and at[0][3]:
-                    return False
-            return True
+        edge_ok = edge_ok_for(caller)
 
         ok = gg.always_followed_by(node, bounded, edge_ok=edge_ok)
         ctx.ob(f"{caller.qualname}: reply-close bounded", ok,
